@@ -14,6 +14,7 @@ StoreEntries == {"s_store", "r_store", "g_store"}
 \* the instructions that touched the n guest bytes during the call.  L = load, S = store, M = read-modify-write
 \* (a locked xchg is reported as L and M of ONE instruction).
 HasMach(e) == "mach" \in DOMAIN e.r
+SeqCstReq(e) == ("ord" \notin DOMAIN e.a) \/ e.a.ord = "seqcst"
 Instrs(m) == {m[i][4] : i \in 1 .. Len(m)}
 KindsOf(m) == {m[i][1] : i \in 1 .. Len(m)}
 OneInstr(m, n) == Cardinality(Instrs(m)) = 1 /\ \A i \in 1 .. Len(m) : m[i][2] = 0 /\ m[i][3] = n
@@ -33,8 +34,10 @@ TraceNext ==
             \* machine level: one instruction of width n; a store requested SeqCst is a locked read-modify-write, a load a load
             /\ Judge((HasMach(e) /\ e.r.gres % n = 0) =>
                         /\ OneInstr(e.r.mach, n)
-                        /\ (IF e.a.entry \in StoreEntries THEN "M" \in KindsOf(e.r.mach) ELSE KindsOf(e.r.mach) = {"L"}),
-                     "machine_atomic", [expected |-> IF e.a.entry \in StoreEntries THEN "one locked read-modify-write" ELSE "one load"])
+                        /\ (IF e.a.entry \in StoreEntries
+                            THEN (IF SeqCstReq(e) THEN "M" \in KindsOf(e.r.mach) ELSE KindsOf(e.r.mach) \subseteq {"S", "M", "L"} /\ KindsOf(e.r.mach) \cap {"S", "M"} # {})
+                            ELSE KindsOf(e.r.mach) = {"L"}),
+                     "machine_atomic", [expected |-> IF e.a.entry \in StoreEntries THEN "one store instruction (locked read-modify-write for SeqCst)" ELSE "one load"])
        ELSE /\ Judge(e.r.res.k = "ok", "panic", [res |-> e.r.res])
             \* C06: one access of width n touching the guest location, when both sides are aligned to n
             /\ Judge(IsSingle(n, lo, g) => (Len(e.r.acc) = 1 /\ e.r.acc[1].w = n /\ e.r.acc[1].goff = 0), "single",
